@@ -43,8 +43,9 @@ ASSUMPTIONS = [
     "oracle: float64 normalised recursion validated against mpmath at start-up; numerical differentiation validated on closed forms at start-up",
 ]
 LEVEL_TEXT = (
-    "Held on every explored execution: all (l,m) rows for lmax up to 150 (quick) / 250 (thorough) on random and structured "
-    "angles including poles, equator, angles outside the principal range."
+    "Held on every explored execution: all (l,m) rows for lmax up to 200 (quick) / 250, values 400 (thorough) on random and "
+    "structured angles including poles, equator, azimuth in [-20,20] and polar angles shifted by multiples of 2 pi; reflected "
+    "polar angles and the polar derivative at the poles are recorded, not decided."
 )
 TECHNIQUE = "runtime monitoring: post-conditions on grid.utils harmonics/conversion functions with an independent recursion oracle, addition theorem and longdouble numerical differentiation"
 
